@@ -47,6 +47,24 @@ def units_stream(rng, per_unit, streams, viol, samples):
             for i in idxs:
                 x = 10 ** rng.uniform(-25, 25) if rng.random() < 0.9 else float(rng.choice([0, 1, 2, 1e-300, 5e-324, 1e300]))
                 cases.append({"nuc": names[i], "unit": u, "kind": kind, "amount": float(x).hex(), "stable": stable[i]})
+    # the same composition through the high-precision class (predicate only: read-back within a few ulp)
+    hp_cases = []
+    for c in cases[::max(1, len(cases) // (400 if per_unit > 20 else 130))]:
+        x = float(f"{10 ** rng.uniform(-25, 25):.6g}")     # the high-precision class takes its inputs to 15 significant digits
+        hp_cases.append(dict(c, hp=True, amount=float(x).hex()))
+    hp_impl = run_impl("impl_units.py", hp_cases)
+    hp_bad = []
+    for c, r in zip(hp_cases, hp_impl):
+        if "err" in r:
+            if not (r["err"] == "ValueError" and c["kind"] == "activity" and c["stable"]):
+                hp_bad.append((c, r, "unexpected exception (high-precision class)"))
+            continue
+        x = float.fromhex(c["amount"]); back = float.fromhex(r["back"])
+        if abs(back - x) > 8 * math.ulp(x):
+            hp_bad.append((c, r, f"InventoryHP read-back {back!r} differs from {x!r} by more than 8 ulp"))
+        a2 = float.fromhex(r["add"]); n1 = float.fromhex(r["num"])
+        if abs(a2 - 2 * n1) > 8 * math.ulp(2 * n1) or abs(float.fromhex(r["sub"]) - n1) > 8 * math.ulp(n1):
+            hp_bad.append((c, r, "InventoryHP add()/subtract() of the same quantity does not give 2x / 1x the atoms"))
     impl = run_impl("impl_units.py", cases)
     kinds = {"activity": 0, "mass": 1, "moles": 2, "num": 3}
     terms, prop_bad = [], []
@@ -72,8 +90,10 @@ def units_stream(rng, per_unit, streams, viol, samples):
     streams["units_float_bitexact"] = {"cases": len(cases), "model_disagrees": len(bad), "impl_property_failures": len(prop_bad),
                                        "coq_errors": len(errs), "by_kind": {k: sum(1 for c in cases if c["kind"] == k) for k in kinds},
                                        "what": "Inventory({nuc: x}, unit): stored atoms, read-out in the same unit and in the base unit, add(), subtract(); every unit"}
-    for c, r, why in prop_bad[:3]:
-        viol.append({"name": f"units-{len(viol)}", "found_input": True, "key": f"units:{c['nuc']}:{c['unit']}",
+    streams["units_hp_readback"] = {"cases": len(hp_cases), "impl_property_failures": len(hp_bad),
+                                    "what": "InventoryHP({nuc: x}, unit) -> read-out in the same unit within 8 ulp; add/subtract in that unit; amounts 1e-25..1e25"}
+    for c, r, why in (prop_bad + hp_bad)[:3] if False else (hp_bad[:2] + prop_bad[:3]):
+        viol.append({"name": f"units-{len(viol)}", "found_input": True, "key": f"units:{c['nuc']}:{c['unit']}:{'hp' if c.get('hp') else 'f'}",
                      "payload": {"fails": why, "input": c, "impl": r, "entry": "Inventory(...).numbers()/activities()/masses()/moles()"}})
     for i in bad[:3]:
         viol.append({"name": f"units-model-{i}", "found_input": False, "key": f"units-model:{cases[i]['nuc']}:{cases[i]['unit']}",
